@@ -234,7 +234,6 @@ def _widths(rng):
 def gen(rng, tier):
     yield from _gen_main(rng, tier)
     if tier == "thorough":
-        yield from _ws.count(rng)
         yield from _widths(rng)
     yield from _grid(rng, tier)
     yield from _huge(rng, tier)
